@@ -128,6 +128,21 @@ def execute(ctx, exe, tmpd, tag, conf, cases, timeout=600):
         ctx.evaluation()
         seen += 1
         (rcls, rn), (scls, sn) = rl[c["id"]], sl[c["id"]]
+        st = os.environ.get("VERIF_C35_SELFTEST")
+        if st and c["id"] == 1000 and tag == "dir0":
+            # oracle self-test (FRAMEWORK.md): corrupt the observation of the clean directed case
+            rcls = {k: list(v) for k, v in rcls.items()}
+            a, b = rcls["S"][0]
+            if st == "drop":        # one byte of the message not delivered (still the receiver's old content)
+                rcls["S"][0] = (a + 1, b)
+                rcls["G"] = O.norm(rcls.get("G", []) + [(a, a + 1)])
+            elif st == "garble":    # one delivered byte has a wrong value
+                rcls["S"][0] = (a, b - 1)
+                rcls["X"] = [(b - 1, b)]
+            elif st == "src":       # the sender's private byte 0 was modified
+                scls = {k: list(v) for k, v in scls.items()}
+                a, b = scls["O"][0]
+                scls["O"][0] = (a + 1, b)
         verdicts, ncopy, nkeep = O.judge(c, rcls, scls)
         ctx.count("bytes.must_be_copied", ncopy)
         ctx.count("bytes.must_be_kept", nkeep)
